@@ -163,6 +163,8 @@ struct Gen {
                                 else if (x < K.p_hold + K.p_badcode) {
                                         static const int bad[] = {-2, 9, 1000, RC_HOLD_EXIT_OK, RC_HOLD_EXIT_ERROR, RC_PRINT_CMD_LIST_OK, RC_ERROR};
                                         st.code = bad[r.below(7)];
+                                        if (ev_cmd && K.p_ev_release <= 0.0 && (st.code == RC_HOLD_EXIT_OK || st.code == RC_HOLD_EXIT_ERROR))
+                                                st.code = RC_ERROR; // profiles in which event handlers must not release holds
                                 } else {
                                         static const int term[] = {RC_OK, RC_DATA_OK, RC_ERROR, RC_PRINT_CMD_LIST_OK, RC_DATA_OK, RC_OK};
                                         st.code = term[r.below(6)];
